@@ -29,7 +29,7 @@ META = {
                     "helpers that may return an operand itself (closeLinearGap with zero gap, IKPath's last element) are only checked "
                     "for non-mutation, as the statement requires"],
 }
-REQUIRED_CLASSES = ["operand:data_with_exact_zeros"]
+REQUIRED_CLASSES = ["operand:data_with_exact_zeros", "operand:tm_with_more_than_a_full_turn"]
 REQUIRED_REACH = ['general/faser_transform.py:tm.copy', 'general/faser_transform.py:tm.gTM', 'general/faser_screw.py:Screw.copy', 'general/faser_screw.py:Screw.__add__', 'general/basic_helpers.py:localToGlobal', 'kinematics/arm_model.py:Arm.__init__', 'kinematics/sp_model.py:SP.__init__']
 REQUIRED_CLAUSES = ["no_mutation", "no_alias", "mutate_result", "fresh_defaults", "defaults_table", "ctor.arm", "ctor.sp", "mr.args"]
 
@@ -168,6 +168,14 @@ def run_shard(spec, ctx):
     rng = ctx.rng
 
     def T():
+        if rng.random() < 0.12:
+            # a six-vector that carries more than a full turn on one axis (kept as given by the constructor): helpers that "wrap" such a
+            # pose must do it on a copy
+            v = gen.taa(rng, 10.0, ["generic"])
+            v[3:] = 0.0
+            v[3 + int(rng.integers(0, 3))] = float(rng.choice([-1.0, 1.0]) * rng.uniform(2 * math.pi + 0.1, 3 * math.pi))
+            ctx.cls("operand:tm_with_more_than_a_full_turn")
+            return tm(v)
         return tm(gen.taa(rng, 10.0, ["generic", "generic2", "1e-3", "pi-1e-3"]))
 
     def S(cls=Screw, sparse=False):
